@@ -56,6 +56,89 @@ let enc_of arch oc = match arch with
   | "amd64" -> enc_amd64 oc
   | _ -> failwith ("unknown arch " ^ arch)
 
+module Monitor_glue = struct
+  (* the caller's frame: a return address at [STACK] on top of the given memory *)
+  let with_ret (m : z -> z) : z -> z =
+    let bytes = Array.of_list (List.init 8 (fun i -> Z.modulo (Z.div rETADDR (z_of_bz (BZ.shift_left BZ.one (8 * i)))) (zi 256))) in
+    fun a -> let d = BZ.sub (bz_of_z a) (bz_of_z sTACK) in
+      if BZ.sign d >= 0 && BZ.lt d (BZ.of_int 8) then bytes.(BZ.to_int d) else m a
+end
+
+(* ---- histories ---- *)
+let split c s = if s = "" || s = "-" then [] else String.split_on_char c s
+let rec nth_opt l n = match l with [] -> None | x :: r -> if n = 0 then Some x else nth_opt r (n - 1)
+
+exception Out_of_answers
+let life arch oc allp reset lifo overlay answers symtab lifetimes : string =
+  let ov = parse_writes overlay in
+  let m0 : z -> z = fun a ->
+    let rec look = function
+      | [] -> zi 0xCC
+      | (b, bs) :: r -> let d = BZ.sub (bz_of_z a) (bz_of_z b) in
+          if BZ.sign d >= 0 && BZ.lt d (BZ.of_int (List.length bs)) then List.nth bs (BZ.to_int d) else look r in
+    look ov in
+  let ans = Array.of_list (split ',' answers) in
+  let k = { k_mmap = (fun n _ _ -> let i = int_of_nat n in
+                        if i >= Array.length ans then raise Out_of_answers else
+                        if i < Array.length ans && String.length ans.(i) > 0 && ans.(i).[0] = 'm' && ans.(i) <> "m-"
+                        then Some (zh (String.sub ans.(i) 1 (String.length ans.(i) - 1))) else None);
+            k_mprotect = (fun n _ _ -> let i = int_of_nat n in not (i < Array.length ans && ans.(i) = "p0")) } in
+  let syms = List.map (fun d -> match String.split_on_char '=' d with [n; a] -> (n, zh a) | _ -> failwith "sym") (split ',' symtab) in
+  let c = { c_enc = enc_of arch oc; c_allp = allp; c_alloc = alloc_jit false } in
+  let buf = Buffer.create 4096 in
+  let tlen = ref 0 in
+  let seg (s : os) = (* events appended since the last boundary *)
+    let rec drop n l = if n = 0 then l else match l with [] -> [] | _ :: r -> drop (n - 1) r in
+    let t = drop !tlen s.o_trace in tlen := List.length s.o_trace; show_trace t in
+  let resolve (s : os) : string =
+    String.concat "," (List.filter_map (fun (n, a) ->
+      if String.length n > 1 && (String.sub n 0 2 = "fk" || n.[0] = 'z') then None else
+      let orig = List.init 16 (fun i -> m0 (Z.add a (zi i))) in
+      let cur = List.init 16 (fun i -> s.o_mem (Z.add a (zi i))) in
+      if orig = cur then Some (n ^ "=ORIG") else begin
+        let stack = Monitor_glue.with_ret s.o_mem in
+        let rec go fuel st =
+          if fuel = 0 then "TIMEOUT" else
+          if Z.eqb st.rip rETADDR then "RET:" ^ hz (st.xr RAX) else
+          match List.find_opt (fun (n2, a2) -> n2 <> n && Z.eqb a2 st.rip) syms with
+          | Some (n2, _) -> n2
+          | None -> (match xdecode st.xm st.rip with
+                     | None -> "STUCK:" ^ hz st.rip
+                     | Some (i, len) -> go (fuel - 1) (xexec st i len)) in
+        Some (n ^ "=" ^ go 8 { rip = a; xr = regs0; xm = stack })
+      end) syms) in
+  let w = ref { w_os = os0 m0; w_inj = inj0; w_ctr = (fun _ -> Z0) } in
+  (try List.iteri (fun li ops ->
+    let first = ref None and raised = ref O and leak = ref [] and stop = ref false in
+    w := { !w with w_inj = inj0 };
+    List.iteri (fun oi op ->
+      if not !stop then begin
+        let t = String.split_on_char ':' op in
+        let o = match t with
+          | ["I"; f; "exec"; x] -> OpInstall (zh f, KExec (zh x), None)
+          | ["I"; f; "bool"; x] -> OpInstall (zh f, KBool (x <> "0"), None)
+          | ["X"; "sig"] -> OpRefuse (PSigMismatch, None)
+          | ["X"; "null"] -> OpRefuse (PNull, None)
+          | ["X"; "boolgate"] -> OpRefuse (PBoolGate, None)
+          | ["C"] -> OpCall (None, true)
+          | ["P"] -> OpPanic
+          | _ -> failwith ("bad op " ^ op) in
+        match step c reset k !w o with
+        | SCont w' -> w := w'; Buffer.add_string buf (Printf.sprintf "L%d OP%d RES=cont EV=%s RESOLVE=%s\n" li oi (seg w'.w_os) (resolve w'.w_os))
+        | SPanic (w', p, l) -> w := w'; first := Some p; raised := S O; leak := l; stop := true;
+            Buffer.add_string buf (Printf.sprintf "L%d OP%d RES=panic:%s EV=%s RESOLVE=%s\n" li oi (show_panic p) (seg w'.w_os) (resolve w'.w_os))
+        | SFault w' -> w := w'; stop := true; first := Some PUser;
+            Buffer.add_string buf (Printf.sprintf "L%d OP%d RES=fault EV=%s RESOLVE=-\n" li oi (seg w'.w_os))
+      end) (split ',' ops);
+    let rep = scope_exit c lifo k !w !first !raised !leak in
+    let ex = match rep.r_exit with XNormal -> "normal" | XPanic p -> "panic:" ^ show_panic p | XAbort -> "abort" | XFault -> "fault" in
+    Buffer.add_string buf (Printf.sprintf "L%d EXIT RES=%s EV=%s RESOLVE=%s OWNED=%d DIRTY=%d RAISED=%d UNLOCKED=%b LEAKED=%d\n" li ex (seg rep.r_os) (resolve rep.r_os)
+      (List.length rep.r_os.o_owned) (List.length rep.r_os.o_dirty) (int_of_nat rep.r_raised) rep.r_unlocked (List.length rep.r_leaked));
+    w := { w_os = rep.r_os; w_inj = inj0; w_ctr = rep.r_ctr }) (String.split_on_char '|' lifetimes)
+   with Out_of_answers -> Buffer.add_string buf "TRUNC the model asked the kernel for more than the implementation did\n");
+  (* one output line: records separated by " ## " *)
+  String.concat " ## " (String.split_on_char '\n' (String.trim (Buffer.contents buf)))
+
 let handle (t : string list) : string =
   match t with
   (* inst <arch> <oc 0|1> <allp 0|1> <exec|bool> <func> <jit> <x> : the trampoline address is given
@@ -75,6 +158,10 @@ let handle (t : string list) : string =
      | BReturned (rax, rsp, ch, mw) -> Printf.sprintf "RETURNED rax=%s rspdelta=%s [%s] memw=%b" (hz rax)
           (BZ.to_string (BZ.sub (bz_of_z rsp) (bz_of_z sTACK))) (String.concat "," (List.map regname ch)) mw
      | BOther v -> show_verdict v)
+  (* life <arch> <oc> <allp> <reset> <lifo> <overlay> <answers> <symtab> <lifetimes> : a whole history of
+     injector lifetimes against the kernel answers observed in the implementation's run *)
+  | ["life"; arch; oc; allp; reset; lifo; overlay; answers; symtab; lifetimes] ->
+    life arch (oc = "1") (allp = "1") (reset = "1") (lifo = "1") overlay answers symtab lifetimes
   | _ -> "ERR unknown command"
 
 let () =
